@@ -128,6 +128,9 @@ type vfEnd struct {
 	// C04: the peer's advertised window, tracked independently: the window field of the last segment that arrived off the
 	// wire (packets rebuilt by FEC are older than what has been seen since and do not count)
 	modelRmt uint32
+	// C04: segments sitting in the send buffer that were never transmitted when the current call began (only an ack-only
+	// flush admits without transmitting)
+	unsentAdmitted map[uint32]bool
 }
 
 type vfSim struct {
@@ -371,6 +374,15 @@ func (s *vfSim) pre(en *vfEnd) vfSnap {
 	s.retrans = 0
 	s.calls++
 	k := en.k
+	en.unsentAdmitted = nil
+	for sg := range k.snd_buf.ForEach {
+		if sg.xmit == 0 && sg.acked == 0 {
+			if en.unsentAdmitted == nil {
+				en.unsentAdmitted = map[uint32]bool{}
+			}
+			en.unsentAdmitted[sg.sn] = true
+		}
+	}
 	return vfSnap{k.snd_una, k.snd_nxt, k.rmt_wnd, k.cwnd, DefaultSnmp.LostSegs, DefaultSnmp.FastRetransSegs + DefaultSnmp.EarlyRetransSegs}
 }
 
@@ -428,7 +440,12 @@ func (s *vfSim) post(en *vfEnd, p vfSnap, isInput bool, what string) {
 		}
 		for _, sn := range s.newSn {
 			if outstanding := sn - una; int32(outstanding) < 0 || outstanding >= lim {
-				s.bad("C04:new-segment-beyond-effective-window", "end %d put never-sent sn=%d on the wire with %d already outstanding; min(snd_wnd=%d, rmt_wnd=%d, cwnd=%d%s) (%s)",
+				sig := "C04:new-segment-beyond-effective-window"
+				if en.unsentAdmitted[sn] {
+					// the segment was moved into the send buffer by an earlier ack-only flush, which checks the window but transmits nothing
+					sig += ":admitted-by-an-earlier-ack-only-flush-while-the-window-was-open"
+				}
+				s.bad(sig, "end %d put never-sent sn=%d on the wire with %d already outstanding; min(snd_wnd=%d, rmt_wnd=%d, cwnd=%d%s) (%s)",
 					en.id, sn-s.cfg.Sn0, outstanding, k.snd_wnd, rmt, cw, map[bool]string{true: "", false: " (not applied)"}[exact], what)
 			}
 		}
